@@ -1,0 +1,39 @@
+// Copyright The Prometheus Authors
+// Licensed under the Apache License, Version 2.0 (the "License");
+// you may not use this file except in compliance with the License.
+// You may obtain a copy of the License at
+//
+// http://www.apache.org/licenses/LICENSE-2.0
+//
+// Unless required by applicable law or agreed to in writing, software
+// distributed under the License is distributed on an "AS IS" BASIS,
+// WITHOUT WARRANTIES OR CONDITIONS OF ANY KIND, either express or implied.
+// See the License for the specific language governing permissions and
+// limitations under the License.
+
+//go:build verif
+
+// Package verifhook provides seams for deterministic-simulation testing.
+// With the "verif" build tag the functions forward to settable variables.
+package verifhook
+
+// YieldFn is called by Yield when set.
+var YieldFn func(site string, args ...any)
+
+// GetFn is called by Get when set.
+var GetFn func(key string, args ...any) any
+
+// Yield marks a point at which a simulator may suspend the calling goroutine.
+func Yield(site string, args ...any) {
+	if f := YieldFn; f != nil {
+		f(site, args...)
+	}
+}
+
+// Get returns a simulator-provided replacement for a process boundary, or nil.
+func Get(key string, args ...any) any {
+	if f := GetFn; f != nil {
+		return f(key, args...)
+	}
+	return nil
+}
